@@ -366,6 +366,11 @@ EXPR_WRAPPERS = {
     ('built_in_print.rs::format_for_print_pred', 'out += &the_strings[j];'): 'str_append(&mut out, &the_strings[j]);',
     ('built_in_print.rs::format_for_print_pred', 'out += split[i];'): 'str_append_str(&mut out, split[i]);',
     ('built_in_print.rs::next_solution_print', 'format!("{}", ground_term)'): 'disp_term(ground_term)',
+    # the key of a predicate: the same format string in both functions (spec/kb_heap.rs)
+    ('goal.rs::Goal::key', '&terms[0]'): 'vec_at(terms, 0)',
+    ('unifiable.rs::Unifiable::key', '&terms[0]'): 'vec_at(terms, 0)',
+    ('goal.rs::Goal::key', 'format!("{}/{}", functor, arity)'): 'fmt_key(functor, arity)',
+    ('unifiable.rs::Unifiable::key', 'format!("{}/{}", functor, arity)'): 'fmt_key(functor, arity)',
     # print_list: what is written keeps its text (spec/print.rs)
     ('built_in_print_list.rs::next_solution_print_list', 'print!(",\\n");'): 'verif_print_sep(Tracked(heap));',
     ('built_in_print_list.rs::next_solution_print_list', 'println!("{}", s);'): 'verif_println_string(&s, Tracked(heap));',
